@@ -1770,3 +1770,46 @@ M("v8-assign-read-tree-fewer-layers", "C01", "fire V8", "src/compile.rs",
                                 let s = index[mux_layer];
                                 let mut i = 0;
                                 while i < collection.len() {""", "seed C01-d: the accessor copy of the read tree uses only floor(log2(n)) index bits")
+
+# ---------------------------------------------------------------- C03 A5 (known finding): the candidate repair must be quiet
+M("a5-quiet-candidate-repair", "C03", "quiet", "src/compile.rs",
+  """                        if n < bits {
+                            let mut expr = y.clone();
+                            for _ in 0..n - 1 {
+                                expr = Box::new(Expr {
+                                    inner: ExprEnum::Op(Op::Add, expr, y.clone()),
+                                    meta,
+                                    ty: ty.clone(),
+                                });
+                            }
+                            if is_neg {
+                                return Expr {
+                                    inner: ExprEnum::UnaryOp(UnaryOp::Neg, expr),
+                                    meta,
+                                    ty: ty.clone(),
+                                }
+                                .compile(prg, env, circuit);
+                            } else {
+                                return expr.compile(prg, env, circuit);
+                            }
+                        }""",
+  """                        if n < bits {
+                            let y = if is_neg {
+                                Box::new(Expr {
+                                    inner: ExprEnum::UnaryOp(UnaryOp::Neg, y.clone()),
+                                    meta,
+                                    ty: ty.clone(),
+                                })
+                            } else {
+                                y.clone()
+                            };
+                            let mut expr = y.clone();
+                            for _ in 0..n - 1 {
+                                expr = Box::new(Expr {
+                                    inner: ExprEnum::Op(Op::Add, expr, y.clone()),
+                                    meta,
+                                    ty: ty.clone(),
+                                });
+                            }
+                            return expr.compile(prg, env, circuit);
+                        }""", "the candidate repair of the known finding: operand negated first (no KNOWN-FINDING line expected either)")
